@@ -6,7 +6,7 @@
 // internal/app/server) against a real in-memory server stack, from connections of
 // every identity class, with arbitrary claimed SenderId / ReceiverId / Token fields.
 //
-// case:  c <cmdType> p <0|1> f <conn#> s <snd> r <rcv> t <tok|-> b <0|1>      (snd/rcv/tok: literal, or @c<i> @m<i> @s<i> @k<i> @d<i>
+// case:  c <cmdType> p <0|1|2> f <conn#> s <snd> r <rcv> t <tok|-> b <0|1>      (snd/rcv/tok: literal, or @c<i> @m<i> @s<i> @k<i> @d<i>
 //
 //	       = the connection id of connection i / id, secret key of mapping i / code i / id of domain i)
 //
@@ -24,8 +24,12 @@
 package main
 
 import (
+	"bytes"
 	"context"
+	"crypto/hmac"
 	"crypto/sha1"
+	"crypto/sha256"
+	"encoding/base64"
 	"encoding/hex"
 	"encoding/json"
 	"errors"
@@ -33,10 +37,12 @@ import (
 	"fmt"
 	"io"
 	"os"
+	"runtime"
 	"sort"
 	"strconv"
 	"strings"
 	"sync"
+	"sync/atomic"
 	"time"
 
 	"tunnox-core/internal/app/server"
@@ -54,15 +60,17 @@ import (
 	"tunnox-core/internal/core/types"
 	"tunnox-core/internal/packet"
 	"tunnox-core/internal/protocol/session"
+	"tunnox-core/internal/security"
 	vc "tunnox-core/internal/verifharness/common"
 )
 
 // ---------------------------------------------------------------- fake stream
 
 type sentPkt struct {
-	ptype packet.Type
-	ctype packet.CommandType
-	body  string
+	ptype   packet.Type
+	ctype   packet.CommandType
+	body    string
+	payload []byte
 }
 
 type fakeStream struct {
@@ -79,7 +87,7 @@ func (f *fakeStream) ReadPacket() (*packet.TransferPacket, int, error) {
 }
 func (f *fakeStream) WritePacket(p *packet.TransferPacket, _ bool, _ int64) (int, error) {
 	f.mu.Lock()
-	sp := sentPkt{ptype: p.PacketType}
+	sp := sentPkt{ptype: p.PacketType, payload: append([]byte(nil), p.Payload...)}
 	if p.CommandPacket != nil {
 		sp.ctype = p.CommandPacket.CommandType
 		sp.body = p.CommandPacket.CommandBody
@@ -95,6 +103,11 @@ func (f *fakeStream) WritePacket(p *packet.TransferPacket, _ bool, _ int64) (int
 func (f *fakeStream) ReadExact(int) ([]byte, error) { return nil, io.EOF }
 func (f *fakeStream) WriteExact([]byte) error       { return nil }
 func (f *fakeStream) Close()                        { f.mu.Lock(); f.closed = true; f.mu.Unlock() }
+func (f *fakeStream) reset() {
+	f.mu.Lock()
+	f.sent = nil
+	f.mu.Unlock()
+}
 func (f *fakeStream) snapshot() []sentPkt {
 	f.mu.Lock()
 	defer f.mu.Unlock()
@@ -126,6 +139,8 @@ type kase struct {
 	m, k, d  int
 	g        int64
 	bridge   bool
+	noExec   bool     // no CommandExecutor installed on the nodes
+	direct   bool     // entry point SessionManager.ProcessCommand instead of HandlePacket
 	extra    int64    // != 0: every identity-like key is added to the body with this foreign value
 	extraKey []string // key:n | key:s
 	faults   uint64   // bit i: the i-th read (during the command) of the named mapping's main record fails transiently
@@ -147,7 +162,7 @@ func parseCase(s string) (*kase, error) {
 		return nil, fmt.Errorf("bad case")
 	}
 	k := &kase{ctype: atoi(t[1]), resp: t[3] == "1", from: atoi(t[5]), snd: t[7], rcv: t[9], tok: t[11],
-		bad: t[13] == "1", m: atoi(t[15]), g: atoi64(t[17]), k: atoi(t[19]), d: atoi(t[21])}
+		direct: t[3] == "2", bad: t[13] == "1", m: atoi(t[15]), g: atoi64(t[17]), k: atoi(t[19]), d: atoi(t[21])}
 	i := 23
 	i = 22
 	if i+2 < len(t) && t[i] == "e" {
@@ -169,6 +184,10 @@ func parseCase(s string) (*kase, error) {
 	i++
 	if i+1 < len(t) && t[i] == "br" {
 		k.bridge = t[i+1] == "1"
+		i += 2
+	}
+	if i+1 < len(t) && t[i] == "ne" {
+		k.noExec = t[i+1] == "1"
 		i += 2
 	}
 	next := func(tag string) (int, error) {
@@ -275,6 +294,13 @@ type world struct {
 	sms     []*session.SessionManager // one per node
 	hub     *hub
 	stor    *flakyStorage
+	skm     *security.SecretKeyManager
+	cfgRepo *repos.ClientConfigRepository
+	pushMu  sync.Mutex
+	pushes  []pushRec // every config the session asked for in order to push it after a successful handshake
+	logins  int       // successful handshakes
+	clients map[int64]bool
+	gone0   map[int]bool
 	cloud   *managers.BuiltinCloudControl
 	kase    *kase
 	pmRepo  *repos.PortMappingRepo
@@ -303,6 +329,174 @@ func (m *doneMW) Process(ctx *types.CommandContext, next func(*types.CommandCont
 }
 
 func connID(i int) string { return fmt.Sprintf("conn-%d", i) }
+
+// ---------------------------------------------------------------- identities come from the real handshake
+
+var masterKey = base64.StdEncoding.EncodeToString(bytes.Repeat([]byte{0x5a}, 32))
+
+var (
+	skmOnce sync.Once
+	theSKM  *security.SecretKeyManager
+	errSKM  error
+)
+
+func secretOf(clientID int64) string { return fmt.Sprintf("verif-secret-of-%d", clientID) }
+
+type pushRec struct {
+	connID string
+	body   string
+}
+
+// authTap is the session's AuthHandler: the real ServerAuthHandler, observed. After a successful handshake the
+// session pushes the client's configuration from a goroutine; the tap lets the harness wait for that push to be
+// over before the command under test is sent.
+type authTap struct {
+	real *server.ServerAuthHandler
+	w    *world
+}
+
+func (a *authTap) HandleHandshake(conn session.ControlConnectionInterface, req *packet.HandshakeRequest) (*packet.HandshakeResponse, error) {
+	return a.real.HandleHandshake(conn, req)
+}
+func (a *authTap) GetClientConfig(conn session.ControlConnectionInterface) (string, error) {
+	body, err := a.real.GetClientConfig(conn)
+	a.w.pushMu.Lock()
+	if err != nil {
+		body = ""
+	}
+	a.w.pushes = append(a.w.pushes, pushRec{conn.GetConnID(), body})
+	a.w.pushMu.Unlock()
+	return body, err
+}
+
+// ensureClient stores a client record with a sealed secret, as registration leaves it.
+func (w *world) ensureClient(id int64) error {
+	if w.clients[id] {
+		return nil
+	}
+	w.clients[id] = true
+	enc, err := w.skm.Encrypt(secretOf(id))
+	if err != nil {
+		return err
+	}
+	return w.cfgRepo.CreateConfig(&models.ClientConfig{ID: id, Name: fmt.Sprintf("verif-%d", id), SecretKeyEncrypted: enc, AuthCode: fmt.Sprintf("auth-%d", id),
+		SecretKeyVersion: 1, Type: models.ClientTypeAnonymous, CreatedAt: time.Now(), UpdatedAt: time.Now()})
+}
+
+func (w *world) handshake(i int, req *packet.HandshakeRequest) *packet.HandshakeResponse {
+	payload, _ := json.Marshal(req)
+	w.streams[i].reset()
+	_ = w.smOf(i).HandlePacket(&types.StreamPacket{ConnectionID: connID(i), Timestamp: time.Now(),
+		Packet: &packet.TransferPacket{PacketType: packet.Handshake, Payload: payload}})
+	for _, p := range w.streams[i].snapshot() {
+		if p.ptype&0x3F == packet.HandshakeResp {
+			var r packet.HandshakeResponse
+			if json.Unmarshal(p.payload, &r) == nil {
+				return &r
+			}
+		}
+	}
+	return nil
+}
+
+// establish brings connection i into the state its kind names, through the real handshake path
+// (SessionManager.HandlePacket -> handleHandshake -> ServerAuthHandler):
+//
+//	N  accepted, no handshake            U  handshake for a client that does not exist (refused)
+//	P<c> phase 1 for client c done, challenge pending     F<c> phase 2 for c answered with a wrong HMAC (refused)
+//	A<c> phase 1 and phase 2 with the right HMAC: authenticated as c
+func (w *world) establish(i int, c connSpec) error {
+	hs := func(id int64, resp string) *packet.HandshakeResponse {
+		return w.handshake(i, &packet.HandshakeRequest{ClientID: id, Version: "3", Protocol: "tcp", ConnectionType: "control", ChallengeResponse: resp})
+	}
+	kind := c.kind
+	if (kind == 'A' || kind == 'P' || kind == 'F') && c.cid <= 0 {
+		kind = 'U'
+	}
+	switch kind {
+	case 'N':
+		return nil
+	case 'U':
+		if r := hs(99999999, ""); r == nil || r.Success {
+			return fmt.Errorf("handshake for an unknown client was not refused")
+		}
+		return nil
+	}
+	if err := w.ensureClient(c.cid); err != nil {
+		return err
+	}
+	r := hs(c.cid, "")
+	if r == nil || r.Challenge == "" {
+		return fmt.Errorf("no challenge for client %d", c.cid)
+	}
+	switch kind {
+	case 'P':
+		return nil
+	case 'F':
+		if r2 := hs(c.cid, "00ff00ff"); r2 == nil || r2.Success {
+			return fmt.Errorf("wrong challenge response was not refused")
+		}
+		return nil
+	}
+	mac := hmac.New(sha256.New, []byte(secretOf(c.cid)))
+	mac.Write([]byte(r.Challenge))
+	if r2 := hs(c.cid, hex.EncodeToString(mac.Sum(nil))); r2 == nil || !r2.Success {
+		return fmt.Errorf("client %d could not authenticate", c.cid)
+	}
+	w.logins++
+	return nil
+}
+
+// settleLogins waits until every configuration push that follows a successful handshake is over, then forgets
+// everything the connections received so far.
+func (w *world) settleLogins() error {
+	deadline := time.Now().Add(5 * time.Second)
+	for {
+		w.pushMu.Lock()
+		n := len(w.pushes)
+		recs := append([]pushRec(nil), w.pushes...)
+		w.pushMu.Unlock()
+		done := n >= w.logins
+		if done {
+			for _, pr := range recs {
+				if pr.body == "" || pr.body == `{"mappings":[]}` || pr.body == `{"mappings":null}` {
+					continue
+				}
+				got := false
+				for i := range w.streams {
+					if connID(i) == pr.connID {
+						for _, p := range w.streams[i].snapshot() {
+							if p.ctype == packet.ConfigSet {
+								got = true
+							}
+						}
+					}
+				}
+				done = done && got
+			}
+		}
+		if done {
+			break
+		}
+		if time.Now().After(deadline) {
+			return fmt.Errorf("configuration push after login did not finish")
+		}
+		runtime.Gosched()
+	}
+	for _, fs := range w.streams {
+		fs.reset()
+	}
+	return nil
+}
+
+func (w *world) isGone(i int) bool {
+	inMap, ctl := w.smOf(i).VerifHasConn(connID(i))
+	fs := w.streams[i]
+	fs.mu.Lock()
+	closed := fs.closed
+	fs.mu.Unlock()
+	return !inMap || closed || (w.kase.conns[i].kind != 'N' && !ctl)
+}
 
 func (w *world) smOf(conn int) *session.SessionManager { return w.sms[w.kase.conns[conn].node] }
 
@@ -433,6 +627,15 @@ func buildWorld(k *kase) (*world, error) {
 	repo := repos.NewRepository(stor)
 	cc := factories.NewBuiltinCloudControlWithRepo(ctx, managers.DefaultConfig(), stor, repo)
 	w.cloud = cc
+	skmOnce.Do(func() {
+		theSKM, errSKM = security.NewSecretKeyManager(&security.SecretKeyConfig{MasterKey: masterKey})
+	})
+	if errSKM != nil {
+		return nil, errSKM
+	}
+	w.skm = theSKM
+	w.clients = map[int64]bool{}
+	w.cfgRepo = repos.NewClientConfigRepository(repo)
 	idm := idgen.NewIDManager(stor, ctx)
 	w.pmRepo = repos.NewPortMappingRepo(repo)
 	w.ccRepo = repos.NewConnectionCodeRepository(repo)
@@ -453,8 +656,8 @@ func buildWorld(k *kase) (*world, error) {
 		if k.bridge {
 			sm.SetBridgeManager(&bridge{hub: w.hub, nodeID: fmt.Sprintf("verif-node-%d", n)})
 		}
-		auth := server.NewServerAuthHandler(cc, sm, nil, nil, nil, nil)
-		sm.SetAuthHandler(auth)
+		auth := server.NewServerAuthHandler(cc, sm, nil, nil, nil, w.skm)
+		sm.SetAuthHandler(&authTap{real: auth, w: w})
 
 		// the command table: every handler constructor of the anchored packages
 		registry := command.NewCommandRegistry(ctx)
@@ -480,8 +683,10 @@ func buildWorld(k *kase) (*world, error) {
 		ex := command.NewCommandExecutor(registry, ctx)
 		ex.SetSession(sm)
 		ex.AddMiddleware(&doneMW{ch: w.done})
-		if err := sm.SetCommandExecutor(ex); err != nil {
-			return nil, err
+		if !k.noExec {
+			if err := sm.SetCommandExecutor(ex); err != nil {
+				return nil, err
+			}
 		}
 	}
 
@@ -535,8 +740,24 @@ func buildWorld(k *kase) (*world, error) {
 	for i, c := range k.conns {
 		fs := &fakeStream{}
 		w.streams = append(w.streams, fs)
-		if err := w.sms[c.node].VerifAddConnection(connID(i), fs, c.kind != 'N', c.cid); err != nil {
+		if err := w.sms[c.node].VerifAddConnection(connID(i), fs, false, 0); err != nil {
 			return nil, err
+		}
+	}
+	for i, c := range k.conns {
+		if err := w.establish(i, c); err != nil {
+			return nil, fmt.Errorf("conn %d: %w", i, err)
+		}
+	}
+	if err := w.settleLogins(); err != nil {
+		return nil, err
+	}
+	// connections that are already gone before the command (an earlier login of the same client on the same node
+	// loses its control connection when the client logs in again)
+	w.gone0 = map[int]bool{}
+	for i := range k.conns {
+		if w.isGone(i) {
+			w.gone0[i] = true
 		}
 	}
 	// a client that receives a forwarded DNS request answers it at once (from its own connection)
@@ -705,9 +926,21 @@ func (w *world) canon(v any, newIDs map[string]bool) any {
 		}
 		return out
 	case []any:
-		out := make([]any, len(x))
+		// order-insensitive: lists built by ranging over Go maps (e.g. a client's mappings) come in any order
+		type kv struct {
+			k string
+			v any
+		}
+		items := make([]kv, len(x))
 		for i := range x {
-			out[i] = w.canon(x[i], newIDs)
+			v := w.canon(x[i], newIDs)
+			b, _ := json.Marshal(v)
+			items[i] = kv{string(b), v}
+		}
+		sort.SliceStable(items, func(a, b int) bool { return items[a].k < items[b].k })
+		out := make([]any, len(x))
+		for i := range items {
+			out[i] = items[i].v
 		}
 		return out
 	case string:
@@ -951,7 +1184,7 @@ func runOnce(k *kase, claimed bool) string {
 		defer w.cancel()
 		ids := clientIDs(k)
 		before := w.snapshot(ids)
-		cmd := &packet.CommandPacket{CommandType: packet.CommandType(k.ctype), CommandId: "cmd-verif-1", CommandBody: w.body(k)}
+		cmd := &packet.CommandPacket{CommandType: packet.CommandType(k.ctype), CommandId: fmt.Sprintf("cmd-verif-%d", atomic.AddInt64(&cmdSeq, 1)), CommandBody: w.body(k)}
 		if claimed {
 			if k.snd != "0" {
 				cmd.SenderId = w.resolveClaim(k.snd)
@@ -970,15 +1203,21 @@ func runOnce(k *kase, claimed bool) string {
 		if k.faults != 0 && k.m >= 0 && k.m < len(w.mapIDs) {
 			w.stor.arm(constants.KeyPrefixPortMapping+":"+w.mapIDs[k.m], k.faults)
 		}
-		err = w.smOf(k.from).HandlePacket(&types.StreamPacket{ConnectionID: connID(k.from), Timestamp: time.Now(),
-			Packet: &packet.TransferPacket{PacketType: pt, CommandPacket: cmd}})
+		if k.direct {
+			_, err = w.smOf(k.from).ProcessCommand(connID(k.from), cmd)
+		} else {
+			err = w.smOf(k.from).HandlePacket(&types.StreamPacket{ConnectionID: connID(k.from), Timestamp: time.Now(),
+				Packet: &packet.TransferPacket{PacketType: pt, CommandPacket: cmd}})
+		}
 		ret := "1"
 		if err != nil {
 			ret = "0"
 		}
 		// one-way registry handlers run in a goroutine: wait until the handler has returned
-		if h, ok := w.smOf(k.from).GetCommandExecutor().GetRegistry().GetHandler(packet.CommandType(k.ctype)); ok && err == nil &&
-			h.GetDirection() == types.DirectionOneway && !specialCased(k) {
+		if ce := w.smOf(k.from).GetCommandExecutor(); ce == nil {
+			// no executor: nothing runs asynchronously
+		} else if h, ok := ce.GetRegistry().GetHandler(packet.CommandType(k.ctype)); ok && err == nil &&
+			h.GetDirection() == types.DirectionOneway && (k.direct || !specialCased(k)) {
 			select {
 			case <-w.done:
 			case <-time.After(5 * time.Second):
@@ -1057,11 +1296,7 @@ func runOnce(k *kase, claimed bool) string {
 					dlv = append(dlv, fmt.Sprintf("%d:%d:%s", i, p.ctype, sender))
 				}
 			}
-			inMap, ctl := w.smOf(i).VerifHasConn(connID(i))
-			fs.mu.Lock()
-			closed := fs.closed
-			fs.mu.Unlock()
-			if !inMap || closed || (k.conns[i].kind != 'N' && !ctl) {
+			if w.isGone(i) && !w.gone0[i] {
 				gone = append(gone, strconv.Itoa(i))
 			}
 		}
@@ -1111,7 +1346,49 @@ func specialCased(k *kase) bool {
 	return false
 }
 
-func execCase(out *vc.Out, caseStr string) {
+// execCase queues a case; the queue is run by a few workers (every case builds its own world) and printed in order.
+func execCase(out *vc.Out, caseStr string) { queue = append(queue, caseStr) }
+
+type caseResult struct {
+	line, obs, key string
+	counts         []string
+}
+
+var queue []string
+var cmdSeq int64
+
+func flushQueue(out *vc.Out) {
+	res := make([]caseResult, len(queue))
+	var wg sync.WaitGroup
+	next := int64(-1)
+	workers := runtime.NumCPU()
+	if workers > 6 {
+		workers = 6
+	}
+	for wk := 0; wk < workers; wk++ {
+		wg.Add(1)
+		go func() {
+			defer wg.Done()
+			for {
+				i := int(atomic.AddInt64(&next, 1))
+				if i >= len(queue) {
+					return
+				}
+				res[i] = runCase(queue[i])
+			}
+		}()
+	}
+	wg.Wait()
+	for _, r := range res {
+		for _, c := range r.counts {
+			out.Count(c)
+		}
+		out.Case(r.line, r.obs, r.key)
+	}
+	queue = nil
+}
+
+func runCase(caseStr string) (cr caseResult) {
 	key := ""
 	if strings.HasPrefix(caseStr, "K:") {
 		sp := strings.SplitN(caseStr, " ", 2)
@@ -1122,8 +1399,7 @@ func execCase(out *vc.Out, caseStr string) {
 	}
 	k, err := parseCase(caseStr)
 	if err != nil {
-		out.Case(key+caseStr, "bad-case", "")
-		return
+		return caseResult{line: key + caseStr, obs: "bad-case"}
 	}
 	a := runOnce(k, true)
 	b := a
@@ -1131,21 +1407,22 @@ func execCase(out *vc.Out, caseStr string) {
 		// excluded point of the correspondence: which of several default DNS targets is used depends on Go's map
 		// iteration order inside GetClientPortMappings; the case is marked `x`, judged by the property predicate
 		// only, and not run a second time (two runs may legitimately differ)
-		out.Count("excluded-point:ambiguous-default-dns-target")
-		out.Case(key+"x "+caseStr[2:], a+" ~ "+b, caseStr)
-		return
+		return caseResult{line: key + "x " + caseStr[2:], obs: a + " ~ " + b, key: caseStr, counts: []string{"excluded-point:ambiguous-default-dns-target"}}
 	}
 	if k.snd != "0" || k.rcv != "0" || k.tok != "-" || k.extra != 0 || (k.g != 0 && !addressedType(k)) {
 		b = runOnce(k, false)
 	}
+	if k.direct {
+		// SessionManager.ProcessCommand hands the packet to the executor without the special cases of handleCommandPacket:
+		// not modelled, judged by the property predicate only
+		return caseResult{line: key + "x " + caseStr[2:], obs: a + " ~ " + b, key: caseStr, counts: []string{"excluded-point:entry-ProcessCommand"}}
+	}
 	if k.faults != 0 && !faultModelled(k) {
 		// read faults are modelled for the commands that look one named mapping up; for every other command the case
 		// is an excluded point of the model comparison and is judged by the property predicate only
-		out.Count("excluded-point:read-fault-unmodelled-command")
-		out.Case(key+"x "+caseStr[2:], a+" ~ "+b, caseStr)
-		return
+		return caseResult{line: key + "x " + caseStr[2:], obs: a + " ~ " + b, key: caseStr, counts: []string{"excluded-point:read-fault-unmodelled-command"}}
 	}
-	out.Case(key+caseStr, a+" ~ "+b, caseStr)
+	return caseResult{line: key + caseStr, obs: a + " ~ " + b, key: caseStr}
 }
 
 func faultModelled(k *kase) bool {
@@ -1233,7 +1510,9 @@ func allTypes() []int {
 
 func gen(out *vc.Out, r *vc.Rand, thorough bool) {
 	// the standard cast: A listens, B is the target, S is a stranger, U has not authenticated, N never shook hands
-	conns := []string{"A1001", "A1002", "A1003", "U0", "N0"}
+	// … and two connections that started the real handshake as client 1001 without completing it:
+	// P1001 got the challenge (phase 1), F1001 answered it with a wrong HMAC (phase 2 refused)
+	conns := []string{"A1001", "A1002", "A1003", "U0", "N0", "P1001", "F1001"}
 	std := worldStr(conns,
 		[]string{"1001:1002:s:a", "1002:1001:t:a", "1003:1003:t:i"},
 		[]string{"1002:0", "1001:1", "1003:0"},
@@ -1257,7 +1536,10 @@ func gen(out *vc.Out, r *vc.Rand, thorough bool) {
 	// 1. exhaustive: command type x identity x claimed fields x target object
 	for _, ct := range allTypes() {
 		for from := 0; from < len(conns); from++ {
-			for _, cl := range claims {
+			for ci, cl := range claims {
+				if from >= 5 && !thorough && ci != 0 && ci != 3 {
+					continue // the half-finished-handshake identities: base packet and extra body keys only in the quick tier
+				}
 				for _, resp := range []bool{false, true} {
 					objs := []int{0}
 					if usesObject(ct) {
@@ -1304,7 +1586,7 @@ func gen(out *vc.Out, r *vc.Rand, thorough bool) {
 		for _, l := range owners {
 			for _, t := range owners {
 				for _, online := range []bool{true, false} {
-					cs := []string{"A1001", "A1003", "U0", "N0"}
+					cs := []string{"A1001", "A1003", "U0", "P1001"}
 					if online {
 						cs = append(cs, "A1002")
 					}
@@ -1343,6 +1625,23 @@ func gen(out *vc.Out, r *vc.Rand, thorough bool) {
 					out.Count("small-scope:code-domain-ownership")
 				}
 			}
+		}
+	}
+	// 1e. configuration without a command executor (handleDefaultCommand / handleConfigGetCommand), and the second entry
+	//     point ProcessCommand (executor without the special cases; predicate only)
+	noEx := strings.Replace(std, "W ", "W ne 1 ", 1)
+	for _, ct := range allTypes() {
+		for from := 0; from < len(conns); from++ {
+			execCase(out, caseStr(ct, false, from, 0, 0, "-", false, 0, B, 0, 0, noEx))
+			if ct == 50 || ct == 76 || ct == 110 || ct == 90 {
+				execCase(out, withExtras(reClaim(caseStr(ct, false, from, 0, 0, "-", false, 0, B, 0, 0, noEx), "@c0", "@c1", "@c0"), A))
+			}
+			pc := strings.Replace(caseStr(ct, false, from, 0, 0, "-", false, 0, B, 0, 0, std), " p 0 ", " p 2 ", 1)
+			execCase(out, pc)
+			if thorough {
+				execCase(out, withExtras(reClaim(pc, "@c0", "@c1", "@c0"), A))
+			}
+			out.Count("config:no-executor+entry:ProcessCommand")
 		}
 	}
 	// 1d. transient storage-read faults: every schedule of failures over the first reads of the named mapping's record
@@ -1420,7 +1719,7 @@ func gen(out *vc.Out, r *vc.Rand, thorough bool) {
 			case 0:
 				cs = append(cs, "U0")
 			case 1:
-				cs = append(cs, "N0")
+				cs = append(cs, vc.Pick(r, []string{"N0", "N0", fmt.Sprintf("P%d", vc.Pick(r, ids)), fmt.Sprintf("F%d", vc.Pick(r, ids))}))
 			default:
 				cs = append(cs, fmt.Sprintf("A%d", vc.Pick(r, ids)))
 			}
@@ -1532,5 +1831,6 @@ func main() {
 	if !*noGen {
 		gen(out, vc.NewRand(*seed), *tier == "thorough")
 	}
+	flushQueue(out)
 	out.Finish(*stats, nil)
 }
